@@ -39,7 +39,9 @@ func init() {
 }
 
 type c13Case struct {
-	Kind string `json:"kind"` // json-kind | json-mut | xml-mut | path | query | xpath | setvalue
+	// Store: target node implementation for the edit kinds ("" = reference store)
+	Store string `json:"store,omitempty"`
+	Kind  string `json:"kind"` // json-kind | json-mut | xml-mut | path | query | xpath | setvalue
 	From int    `json:"from"`
 	To   int    `json:"to"`
 }
@@ -105,6 +107,11 @@ func c13XPaths(n int) []string {
 		return w
 	}
 	w := c13Words(c13XTokens, n, "")
+	// parameter sweeps: paths of 1..300 steps, long literals and numbers
+	for k := 1; k <= 300; k++ {
+		w = append(w, strings.Repeat("a/", k)+"a", strings.Repeat("../", k)+"a", strings.Repeat("c/", k)+"v=10",
+			"v="+strings.Repeat("9", k), "a='"+strings.Repeat("x", k)+"'", strings.Repeat("c:", k)+"a")
+	}
 	c13WordCache[key] = w
 	return w
 }
@@ -264,14 +271,25 @@ func c13Mutants(text string, toks []yTok, subst []string) []string {
 var c13JSONSubst = []string{"{", "}", "[", "]", ",", ":", `"x"`, "0", "null", "true", `"k"`, "1e999", "-", `"\u0000"`, `"\ud800"`}
 var c13XMLSubst = []string{"<x>", "</x>", "<k>", "</k>", "<l>", "</l>", "<zz:a>", "<a b='1'>", "<![CDATA[x]]>", "<!-- c -->", "<?pi?>", "&amp;", "&bogus;", "text", "<req xmlns='urn:other'>", "<"}
 
-func c13Env() (*meta.Module, *store.Ref, *node.Browser) {
+func c13Env(impl string) (*meta.Module, *store.Ref, *node.Browser) {
 	m := model.SharedSchema("req")
 	t, err := model.FromJSON(m.DataDefinitions(), []byte(c13Stored))
 	if err != nil {
 		panic(err)
 	}
 	r := store.NewRef(t)
-	b := node.NewBrowser(m, &nodeutil.Extend{Base: r.Node(),
+	base := r.Node()
+	if impl != "" && impl != "ref" {
+		// a library node over Go maps, loaded directly
+		st := store.New(impl)
+		if !st.(interface {
+			Load([]meta.Definition, *model.Tree) bool
+		}).Load(m.DataDefinitions(), t) {
+			panic("harness: cannot load the stored tree into " + impl)
+		}
+		base = st.Root()
+	}
+	b := node.NewBrowser(m, &nodeutil.Extend{Base: base,
 		OnAction: func(p node.Node, r node.ActionRequest) (node.Node, error) { return nil, nil },
 		OnNotify: func(p node.Node, r node.NotifyRequest) (node.NotifyCloser, error) {
 			e := model.NewTree()
@@ -328,6 +346,12 @@ func (p *c13) Cases(tier string, emit func(interface{})) {
 				kk = fmt.Sprintf("xpath%d", c13XLen(tier))
 			}
 			emit(c13Case{Kind: kk, From: from, To: to})
+			if k == "json-kind" || k == "json-mut" || k == "xml-mut" {
+				// the same edit requests against the library's own nodes over Go maps
+				for _, st := range []string{"reflect-map", "node-map"} {
+					emit(c13Case{Store: st, Kind: kk, From: from, To: to})
+				}
+			}
 		}
 	}
 }
@@ -385,6 +409,9 @@ func (p *c13) Run(raw json.RawMessage) eng.Result {
 	ss := &sigSet{res: &res}
 	report := func(class, sym, what string, idx int) {
 		sig := "C13/" + class + "/" + sym
+		if c.Store != "" {
+			sig = "C13/" + c.Store + "/" + class + "/" + sym
+		}
 		if ss.seen == nil {
 			ss.seen = map[string]bool{}
 		}
@@ -397,7 +424,7 @@ func (p *c13) Run(raw json.RawMessage) eng.Result {
 		res.AddCase(sig, what, rc)
 	}
 	guard := func(class string, idx int, desc string, f func(b *node.Browser) error) (err error, panicked bool) {
-		_, _, b := c13Env()
+		_, _, b := c13Env(c.Store)
 		start := time.Now()
 		fr, msg, pan := eng.Recover(func() { err = f(b) })
 		res.Evals++
